@@ -177,7 +177,7 @@ def _decode_trace_leg(rep, tier, pid):
             if r["outcome"] == "other":
                 what = "decode(%s, %s) raised %s (not ProphyError)" % (data.hex(), o, r["exc"])
             elif r["outcome"] == "timeout":
-                what = "decode(%s, %s) did not terminate within 5 s" % (data.hex(), o)
+                what = "decode(%s, %s) did not terminate within 5 s of CPU time" % (data.hex(), o)
             elif r["peak"] > 64 * len(data) + (1 << 20):
                 what = "decode(%s, %s) allocated %d bytes for %d input bytes" % (data.hex()[:80], o, r["peak"], len(data))
             elif r["fix"]:
